@@ -151,3 +151,16 @@ func TestVerifWitness_C15_workspace_symbol_order(t *testing.T) {
 	}
 	fmt.Println("WITNESS-HOLDS")
 }
+
+// C08 parser.(*Parser).parseCommodityDirective#ensures.commodity_range: the commodity of a commodity directive has a range with an end.
+func TestVerifWitness_C08_commodity_directive_range(t *testing.T) {
+	content := "commodity EUR\n\n2024-01-01 x\n    expenses:food  1 EUR\n    assets:cash\n"
+	j, _ := parser.Parse(content)
+	for _, l := range findCommodityReferences("EUR", nil, "/tmp/a.journal", j, true) {
+		if l.Range.End.Line > 10 || l.Range.End.Character > 100 {
+			fmt.Printf("WITNESS-FAILS 'commodity EUR': declaration reported with range %v\n", l.Range)
+			return
+		}
+	}
+	fmt.Println("WITNESS-HOLDS")
+}
